@@ -1,4 +1,5 @@
 import GqlModel.Json.Model
+import GqlModel.Lexer.Model
 /-
   Specification side of C19: the IMAGE of a document under encode-then-decode.
 
@@ -169,6 +170,23 @@ def fixDocB (f : Bytes → Bytes) (d : QueryDoc) : Bool := d.ops.all (fixOpB f) 
     is total on the tree type, and what the tree type cannot express (comments, the validation
     links, nil pointers inside lists) does not occur in a parsed document. -/
 def utf8CleanB (d : QueryDoc) : Bool := fixDocB sanitize d
+
+/- ---------------- the same at the level of the source text ---------------- -/
+
+/-- Every token the lexer model produces from `(rest, cur)` has a value that is well-formed UTF-8:
+    follow `readToken` until it errors or reaches its fixed point (the EOF token, which leaves the
+    state unchanged).  `false` when the fuel runs out first (`inp.length + 2` always suffices: every
+    token but EOF consumes a byte).  Sufficient for the parsed document to be `utf8CleanB`
+    (`parseQuery_clean`); it also looks at comments, which never reach the tree. -/
+def lexCleanB : Nat → Bytes → Lexer.Cur → Bool
+  | 0, _, _ => false
+  | n + 1, rest, cur =>
+    match Lexer.readToken rest cur with
+    | .err _ => true
+    | .tok t r c =>
+      decide (sanitize t.value = t.value) && (if r = rest ∧ c = cur then true else lexCleanB n r c)
+
+def sourceCleanB (inp : Bytes) : Bool := lexCleanB (inp.length + 2) inp Lexer.Cur.init
 
 /- ---------------- selection kinds ---------------- -/
 
